@@ -15,6 +15,9 @@ type BasicPrivateIssuer struct {
 }
 
 func NewBasicPrivateIssuer(key *oprf.PrivateKey) *BasicPrivateIssuer {
+	// oprf.PrivateKey caches its public key lazily and without synchronisation;
+	// compute it now so that concurrent use of the issuer only reads it.
+	key.Public()
 	return &BasicPrivateIssuer{
 		tokenKey: key,
 	}
